@@ -84,6 +84,8 @@ namespace plan
     }
     bool planting(long u) const { return plant_mode == 1 || (plant_mode == 2 && modn(u, 4) != 0); }
 
+    bool p_interval(const PredD &p) const { return (p.cls >= 0 && m.classes[p.cls].is_sv) || p.kind == 1; }
+    bool p_impulse(const PredD &p) const { return !(p.cls >= 0 && m.classes[p.cls].is_sv) && p.kind == 2; }
     static long modn(long v, size_t n) { return n ? static_cast<long>((v < 0 ? -v : v) % static_cast<long>(n)) : 0; }
 
     mpq_class q(long num, long den, long lim)
@@ -222,13 +224,13 @@ namespace plan
       Scope sc;
       for (auto &a : m.preds[p].rparams)
         sc.nums.push_back({a});
-      if (m.preds[p].kind == 1 || m.preds[p].cls >= 0)
+      if (p_interval(m.preds[p]))
       {
         sc.nums.push_back({"start"});
         sc.nums.push_back({"end"});
         sc.nums.push_back({"duration"});
       }
-      else if (m.preds[p].kind == 2)
+      else if (p_impulse(m.preds[p]))
         sc.nums.push_back({"at"});
       for (size_t i = 0; i < m.reals.size(); ++i)
         if (real_unit[i] == 0)
@@ -241,13 +243,13 @@ namespace plan
       std::vector<Arg> args;
       const PredD &pd = m.preds[pred];
       std::vector<std::string> names = pd.rparams;
-      if (pd.kind == 1 || pd.cls >= 0)
+      if (p_interval(pd))
       {
         names.push_back("start");
         names.push_back("end");
         names.push_back("duration");
       }
-      else if (pd.kind == 2)
+      else if (p_impulse(pd))
         names.push_back("at");
       long mask = op.arg(pos++);
       for (size_t i = 0; i < names.size(); ++i)
@@ -731,6 +733,25 @@ namespace plan
         p.rparams.push_back("a" + std::to_string(m.preds.size()) + "_" + std::to_string(i));
       m.preds.push_back(p);
     }
+    else if (n == "cpred")
+    { // a predicate declared inside a plain (non smart-type) class, possibly temporal
+      if (m.unit != 0 || m.preds.size() >= 5)
+        return;
+      std::vector<int> pc;
+      for (size_t i = 0; i < m.classes.size(); ++i)
+        if (!m.classes[i].is_sv)
+          pc.push_back(static_cast<int>(i));
+      if (pc.empty())
+        return;
+      PredD p;
+      p.name = "CP" + std::to_string(m.preds.size());
+      p.cls = pc[modn(op.arg(0), pc.size())];
+      p.kind = static_cast<int>(modn(op.arg(1), 3));
+      if (modn(op.arg(2), 2))
+        p.rparams.push_back("a" + std::to_string(m.preds.size()) + "_0");
+      m.classes[p.cls].preds.push_back(static_cast<int>(m.preds.size()));
+      m.preds.push_back(p);
+    }
     else if (n == "r_rel")
     {
       if (m.preds.empty() || m.unit != 0)
@@ -789,9 +810,9 @@ namespace plan
       if (m.preds[p].cls >= 0)
       {
         std::vector<int> cands;
-        for (int si : m.sv_insts)
-          if (m.insts[si].cls == m.preds[p].cls)
-            cands.push_back(si);
+        for (size_t si = 0; si < m.insts.size(); ++si)
+          if (m.classes[m.preds[p].cls].is_sv ? m.insts[si].cls == m.preds[p].cls : m.is_subclass(m.insts[si].cls, m.preds[p].cls))
+            cands.push_back(static_cast<int>(si));
         if (cands.empty())
           return;
         it->scope = {m.insts[cands[modn(op.arg(pos), cands.size())]].name};
